@@ -368,6 +368,9 @@ def replay(rec):
     from engine.ref import ConcreteNet, refines
     from biodivine_aeon import BooleanNetwork
     from biobalm.trappist_core import trappist, compute_fixed_point_reduced_STG
+    if rec.get("mode") == "api":
+        from checks import c09_api
+        return c09_api.replay(rec)
     c = rec["cex"]
     if c["kind"] == "options":
         return {"reproduces": True, "failing": ["solver options do not select the required models"], "signature": None}
@@ -451,8 +454,18 @@ def replay(rec):
     return {"reproduces": bool(failing), "failing": failing[:3], "signature": None}
 
 
+def run_task(task):
+    from checks import c09_api
+    return c09_api.run_task(task)
+
+
 def main(tier, seed, t0, selftest=False):
     os.makedirs(os.path.join(common.ROOT, "scratch"), exist_ok=True)
+    # public entry points over symbolic networks (checks/c09_api.py)
+    api_tasks = [] if selftest else [
+        {"prop": PROP, "family": fam, "label": f"api/{fam}", "timebox": box, "seed": seed, "params": {"mode": "api"}}
+        for fam, box in (("U2", 40 if tier == "quick" else 600), ("S1C2", 40 if tier == "quick" else 600), ("D3", 40 if tier == "quick" else 900))]
+    api_results = common.run_tasks(api_tasks) if api_tasks else []
     ns = [2, 3] if tier == "quick" else [2, 3, 4]
     jobs = []
     for n in ns:
@@ -480,6 +493,14 @@ def main(tier, seed, t0, selftest=False):
     bad = [r for r in results if r["status"] in ("sat", "violation")]
     unk = [r for r in results if r["status"] in ("unknown", "unmodelled")]
     violations, nonrepro = [], []
+    api_classes = sum(r.get("classes", 0) for r in api_results)
+    for r in api_results:
+        for i in r.get("inconclusive", []):
+            unk.append({"status": "unknown", "detail": "api harness: " + str(i.get("reason")), "job": r.get("label")})
+        for c in r.get("violations", [])[:3]:
+            rec = {"property": PROP, "mode": "api", "rules": c["rules"], "hist": c.get("hist", {}), "params": {"mode": "api"}}
+            v = common.replay_record(PROP, rec)
+            (violations if v.get("reproduces") is True else nonrepro).append(({"cex": rec}, v))
     for r in bad[:4]:
         rec = {"property": PROP, "cex": r.get("cex", {"kind": "options"}), "job": r["job"], "detail": r.get("detail")}
         v = common.replay_record(PROP, rec)
@@ -487,10 +508,12 @@ def main(tier, seed, t0, selftest=False):
     cov = {"programs": len(jobs), "disagreements_checked": len(bad),
            "samples": [r["job"] for r in unsat[:3]] or [{"note": "none"}],
            "obligations": len(jobs), "discharged": len(unsat),
+           "api_path_classes": api_classes, "api_families": {r.get("label"): {"classes": r.get("classes"), "exhausted": r.get("exhausted")} for r in api_results},
            "queries": {"unsat": len(unsat), "sat": len(bad), "unknown": len(unk)},
            "z3_s": round(sum(r.get("z3_s", 0) for r in results), 2),
            "functions_encoded": FUNCTIONS,
            "bounds": {"n": ns + ([4] if tier == "quick" else []), "quantified": "all networks, all implicant covers, all avoid lists, all source lists (trappist); plus all retained sets and ensure spaces (reduced STG)",
+                      "api": "real trappist()/compute_fixed_point_reduced_STG() on symbolic networks (U2, S1C2, D3), both input forms, symbolic problem / ensure / one avoid space / default-or-explicit sources / limit -1..4; forward time only",
                       "enumerated": "problem kind, time direction, ensure subspace (quick: n=4 only ensure with <= 1 fixed variable)",
                       "outside": "n > 4; DiGraphs that are not implicant covers; the avoid space {} for trappist (emits an empty-body constraint)"},
            "exhaustive": not bad and not unk}
@@ -513,5 +536,5 @@ def main(tier, seed, t0, selftest=False):
     elif unk:
         print(f"INCONCLUSIVE property={PROP} reason={unk[0]['status']}: {unk[0].get('detail')} job={unk[0]['job']}")
         code = 3
-    print(f"{PROP} {tier}: lifted queries={len(jobs)} unsat={len(unsat)} sat={len(bad)} unknown={len(unk)} wall={ev['wall_s']}s exit={code}")
+    print(f"{PROP} {tier}: api classes={api_classes}; lifted queries={len(jobs)} unsat={len(unsat)} sat={len(bad)} unknown={len(unk)} wall={ev['wall_s']}s exit={code}")
     return code
